@@ -168,7 +168,7 @@ func drawC17(rt *rapid.T) C17Scenario {
 		if faulty && rapid.IntRange(0, 1).Draw(rt, "roundfault") == 0 {
 			nfault := rapid.IntRange(1, 2).Draw(rt, "nfaults")
 			for i := 0; i < nfault; i++ {
-				modes := []string{"500", "502", "stall", "refuse-after", "refuse-after"}
+				modes := []string{"500", "502", "stall", "refuse-after", "refuse-after", "lost-ack"}
 				if sc.Platform == "github" {
 					modes = append(modes, "403-rate")
 				} else {
@@ -489,7 +489,11 @@ func runC17(t *testing.T, sc C17Scenario, record bool) *detsim.Outcome {
 		out.Sched.Decisions += len(calls)
 		fired := 0
 		deleteFaulted := false
+		lostAck := false
 		for _, c := range calls {
+			if c.Fault == "lost-ack" && c.Applied {
+				lostAck = true // the platform applied a request whose answer never arrived: outside the property's quantifier
+			}
 			if c.Fault != "" {
 				out.Faults[c.Fault]++
 				fired++
@@ -548,6 +552,16 @@ func runC17(t *testing.T, sc C17Scenario, record bool) *detsim.Outcome {
 		}
 		// --- safety: holds after every run, completed or not ---
 		for i, c := range created {
+			if lostAck {
+				// a retried create after a lost acknowledgement may legitimately double a comment;
+				// explored and counted, not judged (DESIGN 2.4)
+				for _, o := range created[:i] {
+					if o.Path == c.Path && o.Line == c.Line && trimBody(o.Body) == trimBody(c.Body) {
+						out.Probes["observed_duplicate_after_lost_ack"]++
+					}
+				}
+				continue
+			}
 			for _, b := range before {
 				if !b.General && b.Path == c.Path && b.Line == c.Line && b.OldLine == c.OldLine && trimBody(b.Body) == trimBody(c.Body) {
 					out.AddViolation("duplicate-comment-created", fmt.Sprintf("%s: created comment #%d at %s:%d although the equal comment #%d already existed", who, c.ID, c.Path, c.Line, b.ID))
